@@ -411,6 +411,38 @@ func checkC09(c *Ctx, r *Report) {
 		w2, _ := (&Cut{Fn: f, Target: isRet, Sep: inSet(del)}).Run(c)
 		r4.Check(len(rm) == 1 && len(del) == 1 && w1 == "" && w2 == "", "pstoreds ClearAddrs: cache entry removed and datastore key deleted", f.Pos(), 2, "", "", "")
 	}
+	if f := r4.need("(*" + recT + ").clean"); f != nil {
+		// clean() strips expired entries from the in-memory record. The stored copy still has them, and not every
+		// caller writes the record back (read paths load with update=false; the look-ahead GC works from the cached
+		// record and asks clean() again, which then finds nothing to strip). The record must therefore stay dirty from
+		// the moment it is shortened until a flush succeeds: otherwise the stored copy keeps the expired entries and
+		// the peer is listed by PeersWithAddrs for ever.
+		shorten := findInstrs(f, func(in ssa.Instruction) bool { return isFieldWrite(in, pbRec+".Addrs") })
+		isLenAddrs := func(v ssa.Value) bool {
+			call, ok := v.(*ssa.Call)
+			return ok && calleeKey(call) == "builtin.len" && isLoadOfField(pbRec+".Addrs")(strip2(call.Call.Args[0]))
+		}
+		isOldLen := func(v ssa.Value) bool {
+			// the length taken before the removal (a len(r.Addrs) evaluated before the store)
+			if !isLenAddrs(v) {
+				return false
+			}
+			for _, st := range shorten {
+				if w, _ := (&Cut{Fn: f, From: []ssa.Instruction{st}, Target: isInstr(v.(ssa.Instruction))}).Run(c); w != "" {
+					return false
+				}
+			}
+			return true
+		}
+		isNewLen := func(v ssa.Value) bool { return isLenAddrs(v) && !isOldLen(v) }
+		unchanged := eqEdge(isNewLen, isOldLen, true)
+		for _, st := range shorten {
+			w, n := (&Cut{Fn: f, From: []ssa.Instruction{st}, Target: isRet, Sep: setDirty, EdgeCut: unchanged}).Run(c)
+			r4.Check(w == "", "(*addrsRecord).clean: a record shortened by the removal of expired entries is marked dirty (until a flush succeeds)", instrPos(st), n+1, "",
+				"a caller that does not write the record back (a read with update=false) leaves the stored copy with the expired entries and the in-memory record clean: later GC passes see nothing to do and the peer stays listed by PeersWithAddrs, also after a restart", w)
+		}
+		r4.Check(len(shorten) >= 1, "(*addrsRecord).clean: removes expired entries", f.Pos(), len(shorten), "", "", "")
+	}
 	if f := r4.need("(*" + recT + ").flush"); f != nil {
 		// dirty=false only after a successful write
 		for _, st := range findInstrs(f, fieldWritePred(recT+".dirty")) {
@@ -511,12 +543,32 @@ func checkC09(c *Ctx, r *Report) {
 		}
 	}
 	if f := r6.need("(*" + dsP + ".dsAddrBook).Addrs"); f != nil {
-		ok := false
-		for _, call := range callsIn(f, "(*"+dsP+".dsAddrBook).loadRecord") {
-			b, isC := constBool(callArgs(call)[3])
-			ok = isC && b
+		// Addrs answers from the record loadRecord hands out, and loadRecord strips expired entries from every
+		// record it hands out, whatever its update flag says (the flag only decides whether the stripped record is
+		// written back now or stays dirty for the next flush, C09-R4)
+		ok := len(callsIn(f, "(*"+dsP+".dsAddrBook).loadRecord")) == 1
+		r6.Check(ok, "pstoreds Addrs: answers from the record loadRecord returns", f.Pos(), 1, "", "", "")
+		if lr := r6.need("(*" + dsP + ".dsAddrBook).loadRecord"); lr != nil {
+			var rets []ssa.Instruction
+			for _, ret := range returnsOf(lr) {
+				if !isNilConst(retVal(ret, 0)) {
+					rets = append(rets, ret)
+				}
+			}
+			// a record that was not found in the datastore is empty: nothing to strip
+			notFound := func(b *ssa.BasicBlock, s int) bool {
+				return eqEdge(isCallResult(1, "(github.com/ipfs/go-datastore.Read).Get"), func(v ssa.Value) bool {
+					g, isG := strip(v).(*ssa.UnOp)
+					if !isG {
+						return false
+					}
+					gl, isGl := g.X.(*ssa.Global)
+					return isGl && gl.Name() == "ErrNotFound"
+				}, true)(b, s)
+			}
+			w, n := (&Cut{Fn: lr, Target: inSet(rets), Sep: callPred("(*" + recT + ").clean"), EdgeCut: notFound}).Run(c)
+			r6.Check(w == "" && len(rets) >= 1, "pstoreds loadRecord: every record handed out went through clean() (expired entries removed before answering)", lr.Pos(), n+1, "", "expired addresses are returned by the datastore-backed book", w)
 		}
-		r6.Check(ok, "pstoreds Addrs: loadRecord(.., update=true) (expired entries removed before answering)", f.Pos(), 1, "", "", "")
 	}
 	if f := r6.need("(*" + dsP + ".dsAddrBook).loadRecord"); f != nil {
 		// with update=true the record is cleaned (and flushed when changed)
